@@ -25,6 +25,10 @@ CLAIMED["C23"] = {
     "text": "Bounded model checking of one request against a caching loader whose cache was filled by earlier requests: symbolic template-name and namespace strings (<= 1-2 code points, so z3 can construct colliding cache keys), symbolic sync/async choice, globals, capacity 1..2, auto-reload flag and 'source edited' flag; the real CachingLoaderMixin (load, load_async, _check_cache*, cache_key) and LRUCache run on ModelOD; the oracle is relational: name, path, rendered output and effective globals equal those of the non-caching loader for the same request. Sequences of 3 requests with eviction, namespace from render context vs keyword, missing names; the shipped CachingDictLoader/CachingChoiceLoader with names from a pool (sel_only).",
     "note": "Trusted: CrossHair/z3; ModelOD stub for OrderedDict (validated every run); FakePath stand-in for pathlib.Path in liquid.loader; coroutines driven without an event loop. One listed known finding (non-injective cache key) is excluded by a predicate over the arguments.",
 }
+CLAIMED["C07"] = {
+    "text": "Bounded model checking: (O1) one write / three writes on the real LimitedStringIO from an arbitrary (size, limit) state with multi-byte strings; (O2) whole renders of 14 skeleton templates (output, loops, capture, nested capture, ifchanged, include, render, cycle, tablerow, block.super, liquid/echo, non-ASCII literals) with a symbolic output limit L in 0..60, symbolic loop lengths and multi-byte contents from a pool: completed => output equals the unlimited output and is <= L bytes; unlimited > L => OutputStreamLimitError; for skeletons without side buffers the limit is exact (raises iff > L). (N1) local namespace limit with sys.getsizeof replaced by symbolic per-kind sizes and an assign monitor: in a completed strict render every measured size (incl. sizes carried into rendered partials, nested partials, macros) is <= M and carries are monotone.",
+    "note": "Trusted: CrossHair/z3; the getsizeof stub (any size function); contents from a 6-element pool; skeleton family listed in harness/c07.py.",
+}
 NOT_APPLICABLE = {
     "C11": "delimiters flow only into re.escape/re.compile and functools.lru_cache keys (C code needing concrete values): no dimension is left for a solver to decide; enumerating delimiter sets would be bounded testing, a different technique (DESIGN.md §6)",
 }
